@@ -195,4 +195,137 @@ theorem evalExpr_spec (m : Mgr) (τ : Var → Bool) (e : Expr Var)
     (hval : ∀ t ∈ e.t, m.value t.L = some (litVal τ t.L)) : m.evalExpr e = some (e.eval τ) :=
   evalFold_spec m τ e.t e.c hval
 
+/-! ### the exposed model, in terms of what `value()` / `evalexpr()` RETURN -/
+
+/-- the literals a posted constraint mentions -/
+def Post.lits : Post → List Lit
+  | .clause c => c
+  | .imply l1 l2 => l1 ++ [l2]
+  | .amoQ lst => lst
+  | .amoH _ lst => lst
+  | .pb q _ => q.lhs.t.map (·.L)
+
+/-- a posted constraint read off the exposed model: a clause has a literal whose `value()` is 1; an implication whose
+    premises all have `value()` 1 has a conclusion with `value()` 1; at most one literal of a group has `value()` 1;
+    `evalexpr(lhs)` returns an integer that compares with the bound as the normalised operator says -/
+def Post.holdsExposed (m : Mgr) : Post → Prop
+  | .clause c => ∃ l ∈ c, m.value l = some 1
+  | .imply l1 l2 => (∀ l ∈ l1, m.value l = some 1) → m.value l2 = some 1
+  | .amoQ lst => lst.countP (fun l => m.value l == some 1) ≤ 1
+  | .amoH _ lst => lst.countP (fun l => m.value l == some 1) ≤ 1
+  | .pb q _ => ∃ x, m.evalExpr q.lhs = some x ∧ q.op.rel x q.rhs
+
+theorem value_one_iff {m : Mgr} {τ : Var → Bool} {l : Lit} (h : m.value l = some (litVal τ l)) :
+    m.value l = some 1 ↔ litTrue τ l = true := by
+  rw [h, litVal_eq_ite]
+  cases litTrue τ l <;> simp
+
+theorem countP_value_eq {m : Mgr} {τ : Var → Bool} : ∀ (lst : List Lit), (∀ l ∈ lst, m.value l = some (litVal τ l)) →
+    lst.countP (fun l => m.value l == some 1) = lst.countP (litTrue τ) := by
+  intro lst
+  induction lst with
+  | nil => intro _; rfl
+  | cons a r ih =>
+    intro h
+    have ha := value_one_iff (h a (by simp))
+    have hr := ih (fun l hl => h l (by simp [hl]))
+    simp only [List.countP_cons, hr]
+    by_cases hl : litTrue τ a = true
+    · have : m.value a = some 1 := ha.2 hl
+      simp [hl, this]
+    · have : ¬ m.value a = some 1 := fun h1 => hl (ha.1 h1)
+      simp [hl, this]
+
+/-- if `value` agrees with an assignment `τ` on every literal of a posted constraint that `τ` satisfies, the constraint
+    holds as read off `value()` / `evalexpr()` -/
+theorem holdsExposed_of_holds {m : Mgr} {τ : Var → Bool} {p : Post} (hval : ∀ l ∈ p.lits, m.value l = some (litVal τ l))
+    (hp : p.holds τ) : p.holdsExposed m := by
+  cases p with
+  | clause c =>
+    obtain ⟨l, hl, ht⟩ := (clauseTrue_iff τ c).1 hp
+    exact ⟨l, hl, (value_one_iff (hval l hl)).2 ht⟩
+  | imply l1 l2 =>
+    intro h1
+    have h2 : litTrue τ l2 = true := hp (fun l hl => (value_one_iff (hval l (by simp [Post.lits, hl]))).1 (h1 l hl))
+    exact (value_one_iff (hval l2 (by simp [Post.lits]))).2 h2
+  | amoQ lst =>
+    show lst.countP _ ≤ 1
+    rw [countP_value_eq lst hval]; exact hp
+  | amoH k lst =>
+    show lst.countP _ ≤ 1
+    rw [countP_value_eq lst hval]; exact hp
+  | pb q dec =>
+    refine ⟨q.lhs.eval τ, evalExpr_spec m τ q.lhs (fun t ht => hval t.L (by simp [Post.lits]; exact ⟨t, ht, rfl⟩)), ?_⟩
+    simp only [Post.holds, Ineq.holds] at hp
+    cases hop : q.op <;> simp only [hop] at hp <;> simpa [NOp.rel] using hp
+
+/-- and conversely: what is read off `value()` / `evalexpr()` is the truth of the constraint under `τ` -/
+theorem holds_of_holdsExposed {m : Mgr} {τ : Var → Bool} {p : Post} (hval : ∀ l ∈ p.lits, m.value l = some (litVal τ l))
+    (hp : p.holdsExposed m) : p.holds τ := by
+  cases p with
+  | clause c =>
+    obtain ⟨l, hl, h1⟩ := hp
+    exact (clauseTrue_iff τ c).2 ⟨l, hl, (value_one_iff (hval l hl)).1 h1⟩
+  | imply l1 l2 =>
+    intro h1
+    exact (value_one_iff (hval l2 (by simp [Post.lits]))).1
+      (hp (fun l hl => (value_one_iff (hval l (by simp [Post.lits, hl]))).2 (h1 l hl)))
+  | amoQ lst =>
+    show lst.countP _ ≤ 1
+    rw [← countP_value_eq lst hval]; exact hp
+  | amoH k lst =>
+    show lst.countP _ ≤ 1
+    rw [← countP_value_eq lst hval]; exact hp
+  | pb q dec =>
+    obtain ⟨x, hx, hr⟩ := hp
+    have := evalExpr_spec m τ q.lhs (fun t ht => hval t.L (by simp [Post.lits]; exact ⟨t, ht, rfl⟩))
+    rw [this] at hx; simp at hx; subst hx
+    simp only [Post.holds, Ineq.holds]
+    cases hop : q.op <;> simp only [hop, NOp.rel] at hr ⊢ <;> exact hr
+
+/-! ### sessions: managers living one after the other on a store that is never reset -/
+
+/-- a whole history keeps the store well formed and only appends to it -/
+theorem run_store {m : Mgr} {S : Store Var} {ps : List Post} {m' : Mgr} {S' : Store Var} (r : Run m S ps m' S')
+    (hw : WFStore S) (hps : ∀ p ∈ ps, p.WF) : WFStore S' ∧ S.le S' := by
+  induction r with
+  | done => exact ⟨hw, Store.le_refl _⟩
+  | grow hle hw' _ ih =>
+    obtain ⟨w, le⟩ := ih hw' hps
+    exact ⟨w, Store.le_trans hle le⟩
+  | ok hpost _ ih =>
+    obtain ⟨w1, le1⟩ := post_store hw (hps _ (by simp)) hpost
+    obtain ⟨w, le⟩ := ih w1 (fun p hp => hps p (by simp [hp]))
+    exact ⟨w, Store.le_trans le1 le⟩
+  | refused _ _ ih => exact ih hw hps
+  | newvar v _ ih => exact ih hw hps
+  | solve ans hs _ ih => exact ih hw hps
+
+/-- `Session S0 hs S'`: the managers of `hs` (each with the constraints it accepted) were created one after the other,
+    each starting empty on the store its predecessors left behind; the store is never reset.  (Managers alive at the same
+    time are the `grow` steps of `Run`.) -/
+inductive Session : Store Var → List (List Post × Mgr) → Store Var → Prop
+  | nil (S : Store Var) : Session S [] S
+  | cons {S S1 S' : Store Var} {ps : List Post} {m : Mgr} {rest : List (List Post × Mgr)} :
+      Run {} S ps m S1 → (∀ p ∈ ps, p.WF) → Session S1 rest S' → Session S ((ps, m) :: rest) S'
+
+theorem session_store {S0 S' : Store Var} {hs : List (List Post × Mgr)} (s : Session S0 hs S') (hw : WFStore S0) :
+    WFStore S' ∧ S0.le S' := by
+  induction s with
+  | nil => exact ⟨hw, Store.le_refl _⟩
+  | cons r hps _ ih =>
+    obtain ⟨w1, le1⟩ := run_store r hw hps
+    obtain ⟨w, le⟩ := ih w1
+    exact ⟨w, Store.le_trans le1 le⟩
+
+theorem session_minv {S0 S' : Store Var} {hs : List (List Post × Mgr)} (s : Session S0 hs S') (hw : WFStore S0) :
+    ∀ pm ∈ hs, ∃ S, MInv S pm.2 pm.1 := by
+  induction s with
+  | nil => intro pm h; simp at h
+  | cons r hps _ ih =>
+    intro pm h
+    rcases List.mem_cons.1 h with rfl | h
+    · exact ⟨_, by simpa using minv_run r [] (minv_init hw) hps⟩
+    · exact ih (run_store r hw hps).1 pm h
+
 end FV.Sat
